@@ -1193,5 +1193,5 @@ func ssrecover(in json.RawMessage, res *vh.Result) error {
 }
 
 func main() {
-	vh.Main(map[string]vh.Mode{"replay": replay, "probes": probes, "sfprobes": sfprobes, "ssrecover": ssrecover})
+	vh.Main(map[string]vh.Mode{"replay": replay, "probes": probes, "sfprobes": sfprobes, "ssrecover": ssrecover, "refresh": refresh})
 }
